@@ -419,7 +419,10 @@ def gen_C08(rng, tier):
                 kind = rng.choice(['un', 'bin', 'cmp', 'cat', 'elmax'])
                 if kind == 'un': r = p.bind('%s %s' % (rng.choice(['sin', 'cos', 'tanh']), a))
                 elif kind == 'bin': r = p.bind('%s %s %s' % (rng.choice(['add', 'sub', 'mul']), a, b))
-                elif kind == 'cmp': r = p.bind('%s %s %s' % (rng.choice(['eq', 'ne', 'gt', 'ge', 'lt', 'le']), a, b))
+                elif kind == 'cmp':
+                    # against itself (exact tie) or a fresh constant: two libm-derived nodes can differ in the last ulp
+                    kc = a if rng.random() < 0.3 else p.tensor(shape, [rng.uniform(-1.5, 1.5) for _ in range(n)])
+                    r = p.bind('%s %s %s' % (rng.choice(['eq', 'ne', 'gt', 'ge', 'lt', 'le']), a, kc))
                 elif kind == 'elmax':
                     # second operand: a fresh constant (near-ties between libm-derived nodes are ill-conditioned)
                     kc = p.tensor(shape, [rng.uniform(-1.5, 1.5) for _ in range(n)])
